@@ -38,6 +38,11 @@ CHECKS = {
    text="Complete products per slice (9 image shapes incl. 1x1, single row/column, narrower than a tile x 7 band layouts; 7 dtypes x 4 compressions x predictor on/off x 3 nodata settings; 7 blocksize lists x 4 source chunkings x 3 layouts; spill size x writes-per-chunk x parts directory) are written through save_cog_with_dask and every file is decoded with rasterio/GDAL and tifffile: original pixels, dtype, band count, transform, CRS, nodata; padding only right/bottom with the fill value up to the multiple of 2^levels that an independently written layout rule prescribes; every IFD tiled with tile sizes multiple of 16, each overview exactly half; tile byte ranges pairwise disjoint, gap-free from the first tile to EOF; all overview tiles before full-resolution tiles. For 2 (thorough 3) small graphs every task order within 1 (thorough 2) deviations from dask's static order is executed by the harness and each resulting file passes the same oracle with identical size.",
    note="rasterio/GDAL and tifffile trusted as decoders. Ambiguous band-first shapes (documented shape-based detection) excluded. Overview pixel content not compared. Task granularity only.",
    design="4/C05", thorough=True),
+ "C09": dict(level="model_checking", engine="E2+E1",
+   technique="explicit-state BFS over xarray operation sequences on live geo-registered arrays against an index-array reference model + exhaustive reprojection product",
+   text="One breadth-first search per initial array (5 GeoBox kinds incl. rotated, sheared, GCP x 4 shapes incl. single row/column/pixel x 4 CRS settings x 3 dimension layouts x numpy/dask): transitions apply real xarray operations (5 slicings per axis incl. strided and reversed, joint slicings, isel on time/band, +1, *2.0, astype, deep copy, pickle round trip, compute); states are deduplicated on (surviving original rows, columns, dims, dtype, backend); in every new state the recovered .odc.geobox must exist, have the right shape and CRS, map every remaining pixel centre to the world location it had in the original GeoBox, and agree with the coordinate labels. Initial round trip must give an equal GeoBox. Reprojection: complete product of 6 CRS pairs x DataArray/Dataset x CRS/GeoBox target x backend x layout x CRS-coordinate name: recovered GeoBox equals the destination, no stale spatial attribute or stale CRS coordinate survives, grid_mapping points at the destination CRS, non-spatial attributes and non-geo variables are kept.",
+   note="Depth 1-3 (quick) / 3-4 (thorough). Locations compared at pixel centres; R tolerance 1e-9 for non-dyadic affines, 1e-6 px for GCP. Without a CRS single-row/column arrays are outside the domain (as the property states).",
+   design="4/C09", thorough=True),
 }
 NOT_YET = "check not built yet in this session (design in DESIGN.md section 4); no claim made"
 
